@@ -39,7 +39,8 @@ namespace {
 
 struct Global {
 	RunCtx *ctx = nullptr;
-	bool ref_only = false;        // execute every line search by the sequential model (no threads)
+	bool canonical_only = false;  // execute every line search under the canonical schedule only (reference solves)
+	bool depth_direct = false;
 	bool compare = true;          // refinement check at every wrapped line search
 	int workers = 1;
 	int64_t line_searches = 0;
@@ -146,6 +147,42 @@ RefOut walk_descents_ref(cholmod_sparse *AtA_F, cholmod_dense *Atb_F, const chol
 
 } // namespace
 
+namespace {
+// outputs of one execution of the line search
+struct LsOut {
+	int ret = 0; long nF = 0, nH1 = 0; double residual = 0; int calcs = 0;
+	std::vector<double> x; std::vector<long> H1;
+	int64_t steps = 0;
+};
+
+// The real walk_descents on private copies of everything it writes, inside a canonical section of the
+// scheduler ("newest enabled fiber first": every worker runs to its next blocking point as soon as it is
+// created or woken) and with `workers` worker threads. This is the reference the explored execution is
+// compared with: the SAME code, one fixed schedule.
+LsOut canonical_line_search(cholmod_sparse *AtA_F, cholmod_dense *Atb_F, cholmod_dense *x, cholmod_dense *x_F, const long *F, long nF,
+                            long nH1_in, double residual_in, int calcs_in, cholmod_common *c, int workers) {
+	LsOut o;
+	size_t nvar = x->nrow;
+	cholmod_dense xc = *x;                                  // shallow header copy, private value array
+	std::vector<double> xv((double *)x->x, (double *)x->x + x->nzmax);
+	xc.x = xv.data();
+	std::vector<long> Fc(F, F + nF), H1c(nvar + 2, -1);
+	o.nF = nF; o.nH1 = nH1_in; o.residual = residual_in; o.calcs = calcs_in;
+	int save = psv_env_threads; psv_env_threads = workers;
+	int64_t s0 = Sched::steps();
+	Sched::begin_canonical();
+	o.ret = __real_walk_descents(AtA_F, Atb_F, &xc, x_F, Fc.data(), &o.nF, H1c.data(), &o.nH1, &o.residual, &o.calcs, 0, c);
+	Sched::end_canonical();
+	o.steps = Sched::steps() - s0;
+	psv_env_threads = save;
+	o.x = xv;
+	if (o.nH1 < 0) o.nH1 = 0;
+	if ((size_t)o.nH1 > H1c.size()) o.nH1 = (long)H1c.size();
+	o.H1.assign(H1c.begin(), H1c.begin() + o.nH1);
+	return o;
+}
+} // namespace
+
 extern "C" int __wrap_walk_descents(cholmod_sparse *AtA_F, cholmod_dense *Atb_F, cholmod_dense *x, cholmod_dense *x_F,
                                     long *F, long *nF_, long *H1, long *nH1_, double *residual, int *residual_calcs,
                                     int verbose, cholmod_common *c) {
@@ -158,47 +195,73 @@ extern "C" int __wrap_walk_descents(cholmod_sparse *AtA_F, cholmod_dense *Atb_F,
 	double residual_in = *residual;
 	int calcs_in = *residual_calcs;
 	long nH1_in = *nH1_;
-	RefOut ref = walk_descents_ref(AtA_F, Atb_F, x, x_F, F, nF, n_threads, &G.cref);
 	G.line_searches++;
-	if (ref.blocks > G.max_blocks) G.max_blocks = ref.blocks;
 	ctx.count("line_searches");
+	if (G.canonical_only) {
+		// reference mode for whole solves / fits: the real code, canonical schedule, on the real arguments
+		Sched::begin_canonical();
+		int r = __real_walk_descents(AtA_F, Atb_F, x, x_F, F, nF_, H1, nH1_, residual, residual_calcs, verbose, c);
+		Sched::end_canonical();
+		return r;
+	}
+	// statistics from a sequential re-statement of the current algorithm (never a verdict: a legitimate
+	// change of the step rule must not raise an alarm; agreement is reported as a probe)
+	RefOut ref = walk_descents_ref(AtA_F, Atb_F, x, x_F, F, nF, n_threads, &G.cref);
+	if (ref.blocks > G.max_blocks) G.max_blocks = ref.blocks;
 	ctx.count("trial_steps", ref.n_alpha);
 	if (ref.blocks >= 2) ctx.count("probe:multi_block_search");
 	if (ref.blocks >= 3) ctx.count("probe:three_or_more_blocks");
 	if (n_threads > ref.n_alpha) ctx.count("probe:more_workers_than_trial_steps");
 	if (ref.chosen == ref.n_alpha - 1 && !ref.ret) ctx.count("probe:no_step_reduced_residual");
-	if (G.ref_only) {
-		for (size_t k = 0; k < ref.x.size(); k++) ((double *)x->x)[k] = ref.x[k];
-		long n = nH1_in;
-		for (long v : ref.H1) H1[n++] = v;
-		*nH1_ = n;
-		if (ref.residual_set) *residual = ref.residual;
-		*residual_calcs = calcs_in + ref.blocks * n_threads;
-		return ref.ret;
-	}
+
+	// 1. reference executions of the same code: canonical schedule, same worker count; and one worker
+	LsOut can = canonical_line_search(AtA_F, Atb_F, x, x_F, F, nF, nH1_in, residual_in, calcs_in, c, n_threads);
+	bool do_one = n_threads != 1 && (G.depth_direct || (G.line_searches % 4) == 1);
+	LsOut one;
+	if (do_one) one = canonical_line_search(AtA_F, Atb_F, x, x_F, F, nF, nH1_in, residual_in, calcs_in, c, 1);
+
+	// 2. the explored execution, on the real arguments, under the plan's schedule
 	ctx.crumb("walk_descents|workers=%d", n_threads);
-	// bounded liveness: logical steps, far above what a call needs (a 2-worker call takes ~35)
-	int64_t bound = 64 + 32LL * n_threads * (ref.blocks + 2);
+	// bounded liveness in logical steps, relative to what the same call needed under the canonical schedule
+	int64_t bound = 8 * can.steps + 64LL * n_threads + 256;
 	Sched::begin_call_budget(bound, "walk_descents");
 	int ret = __real_walk_descents(AtA_F, Atb_F, x, x_F, F, nF_, H1, nH1_, residual, residual_calcs, verbose, c);
 	int64_t used = Sched::end_call_budget();
-	ctx.log.ev("walk_descents n_alpha=%d blocks=%d workers=%d ret=%d steps=%lld", ref.n_alpha, ref.blocks, n_threads, ret, (long long)used);
-	if (G.compare) {
-		const char *bad = nullptr;
-		if (ret != ref.ret) bad = "return_value";
-		if (!bad) for (size_t k = 0; k < ref.x.size(); k++) if (!same_bits(((double *)x->x)[k], ref.x[k])) { bad = "x"; break; }
-		if (!bad && *nH1_ != nH1_in + (long)ref.H1.size()) bad = "nH1";
-		if (!bad) for (size_t k = 0; k < ref.H1.size(); k++) if (H1[nH1_in + (long)k] != ref.H1[k]) { bad = "H1"; break; }
-		if (!bad && ref.residual_set && !same_bits(*residual, ref.residual)) bad = "residual";
-		if (!bad && !ref.residual_set && !same_bits(*residual, residual_in)) bad = "residual_touched";
-		if (!bad && *residual_calcs != calcs_in + ref.blocks * n_threads) bad = "residual_calcs";
+	ctx.log.ev("walk_descents n_alpha=%d blocks=%d workers=%d ret=%d steps=%lld canonical_steps=%lld", ref.n_alpha, ref.blocks, n_threads, ret,
+	           (long long)used, (long long)can.steps);
+
+	auto differs = [&](const LsOut &r, bool with_calcs) -> const char * {
+		if (ret != r.ret) return "return_value";
+		if (*nF_ != r.nF) return "nF";
+		for (size_t k = 0; k < r.x.size() && k < x->nzmax; k++) if (!same_bits(((double *)x->x)[k], r.x[k])) return "x";
+		if (*nH1_ != r.nH1) return "nH1";
+		for (long k = 0; k < r.nH1; k++) if (H1[k] != r.H1[(size_t)k]) return "H1";
+		if (!same_bits(*residual, r.residual)) return "residual";
+		if (with_calcs && *residual_calcs != r.calcs) return "residual_calcs";
+		return nullptr;
+	};
+	const char *bad = differs(can, true);
+	if (bad) {
+		char d[360];
+		snprintf(d, sizeof d, "line search #%lld (n_alpha=%d, workers=%d): under the explored schedule ret=%d nH1=%ld residual=%a calcs=%d; the same code under the canonical schedule ret=%d nH1=%ld residual=%a calcs=%d",
+		         (long long)G.line_searches, ref.n_alpha, n_threads, ret, *nH1_, *residual, *residual_calcs, can.ret, can.nH1, can.residual, can.calcs);
+		ctx.violate(std::string("C12|schedule_dependent_line_search|walk_descents|") + bad, d);
+	} else if (do_one) {
+		bad = differs(one, false);
 		if (bad) {
-			char d[300];
-			snprintf(d, sizeof d, "line search #%lld (n_alpha=%d, blocks=%d, workers=%d): real code ret=%d nH1=%ld residual=%a calcs=%d; sequential model ret=%d nH1=%zu residual=%a calcs=%d chosen=%d",
-			         (long long)G.line_searches, ref.n_alpha, ref.blocks, n_threads, ret, *nH1_ - nH1_in, *residual, *residual_calcs - calcs_in,
-			         ref.ret, ref.H1.size(), ref.residual, ref.blocks * n_threads, ref.chosen);
-			ctx.violate(std::string("C12|refinement|walk_descents|") + bad, d);
+			char d[360];
+			snprintf(d, sizeof d, "line search #%lld (n_alpha=%d): with %d workers ret=%d nH1=%ld residual=%a; with 1 worker ret=%d nH1=%ld residual=%a",
+			         (long long)G.line_searches, ref.n_alpha, n_threads, ret, *nH1_, *residual, one.ret, one.nH1, one.residual);
+			ctx.violate(std::string("C12|worker_count_dependent_line_search|walk_descents|") + bad, d);
 		}
+		ctx.count("probe:line_search_compared_with_one_worker");
+	}
+	// agreement with the sequential re-statement (informational)
+	{
+		bool agree = ret == ref.ret && *nH1_ == nH1_in + (long)ref.H1.size();
+		for (size_t k = 0; agree && k < ref.x.size(); k++) if (!same_bits(((double *)x->x)[k], ref.x[k])) agree = false;
+		if (agree && ref.residual_set && !same_bits(*residual, ref.residual)) agree = false;
+		ctx.count(agree ? "model:line_search_matches_sequential_restatement" : "model:line_search_differs_from_sequential_restatement");
 	}
 	return ret;
 }
@@ -800,6 +863,7 @@ struct SchedHarness : Harness {
 		ctx.log.ev("plan depth=%s workers=%d policy=%s", depth.c_str(), workers, sc.policy.c_str());
 		ctx.count("depth:" + depth);
 		ctx.count("workers:" + std::to_string(workers));
+		G.depth_direct = depth == "direct";
 		if (depth == "direct") exec_direct(plan, prob, sc, ctx);
 		else if (depth == "block3" || depth == "plain") exec_nnls(plan, prob, sc, ctx, prop);
 		else exec_fit(plan, prob, sc, ctx, prop);
@@ -872,14 +936,14 @@ struct SchedHarness : Harness {
 			// a fresh cholmod_common: modify_factor steers by the flop counts the previous solve left behind
 			cholmod_common c2; cholmod_l_start(&c2);
 			cholmod_sparse *A2 = dense_to_sparse_full(p.A, p.n, &c2); cholmod_dense *b2 = vec_to_dense(p.b, &c2), *x2 = nullptr;
-			G.ref_only = true;
+			G.canonical_only = true;
 			SchedConfig s2; s2.policy = "oldest";
 			SchedOutcome o2 = Sched::run(s2, nullptr, [&]() { x2 = nnls_normal_block3(A2, b2, 0, &c2); });
-			G.ref_only = false;
+			G.canonical_only = false;
 			if (o2.kind == SchedOutcome::OK && x2) {
 				for (int i = 0; i < p.n; i++)
 					if (!same_bits(((double *)x2->x)[i], x[(size_t)i])) {
-						char d[200]; snprintf(d, sizeof d, "x[%d]=%a under the schedule, %a with sequential line searches", i, x[(size_t)i], ((double *)x2->x)[i]);
+						char d[200]; snprintf(d, sizeof d, "x[%d]=%a under the schedule, %a with every line search under the canonical schedule", i, x[(size_t)i], ((double *)x2->x)[i]);
 						ctx.violate("C12|schedule_dependent_result|block3", d); break;
 					}
 				cholmod_l_free_dense(&x2, &c2);
@@ -914,15 +978,15 @@ struct SchedHarness : Harness {
 		int64_t ls = G.line_searches;
 		// --- C12 oracle 6: same coefficients when every line search is done by the sequential model
 		{
-			G.ref_only = true; G.line_searches = 0;
+			G.canonical_only = true; G.line_searches = 0;
 			FitResult fr2;
 			SchedConfig s2; s2.policy = "oldest";
 			SchedOutcome o2 = Sched::run(s2, nullptr, [&]() { fr2 = run_fit(p); });
-			G.ref_only = false;
+			G.canonical_only = false;
 			if (o2.kind == SchedOutcome::OK && fr2.ok) {
 				for (size_t k = 0; k < fr.coef.size(); k++)
 					if (!same_bits(fr.coef[k], fr2.coef[k])) {
-						char d[200]; snprintf(d, sizeof d, "coefficient %zu = %a under the schedule, %a with sequential line searches", k, (double)fr.coef[k], (double)fr2.coef[k]);
+						char d[200]; snprintf(d, sizeof d, "coefficient %zu = %a under the schedule, %a with every line search under the canonical schedule", k, (double)fr.coef[k], (double)fr2.coef[k]);
 						ctx.violate("C12|schedule_dependent_result|fit", d); break;
 					}
 			}
@@ -935,11 +999,11 @@ struct SchedHarness : Harness {
 		double xtol = smooth_w <= 1 ? 1e-5 : 1e-4;
 		if (plan.getb("cross_workers") && G.workers != 1 && smooth_w <= 1e3) {
 			int save = psv_env_threads; psv_env_threads = 1;
-			G.ref_only = true; G.n_modify_factor = 0;
+			G.canonical_only = true; G.n_modify_factor = 0;
 			FitResult fr3;
 			SchedConfig s3; s3.policy = "oldest";
 			SchedOutcome o3 = Sched::run(s3, nullptr, [&]() { fr3 = run_fit(p); });
-			G.ref_only = false; psv_env_threads = save;
+			G.canonical_only = false; psv_env_threads = save;
 			if (o3.kind == SchedOutcome::OK && fr3.ok) {
 				double cmax = 0; for (float v : fr.coef) cmax = std::max(cmax, (double)std::fabs(v));
 				for (size_t k = 0; k < fr.coef.size(); k++)
